@@ -38,7 +38,7 @@ MAGNETS = ["Cuboid", "Cylinder", "Sphere", "Tetrahedron", "TriangularMesh", "Cyl
 
 
 def budget(tier):
-    return {"examples": 800 if tier == "quick" else 20000, "shrink": False}
+    return {"examples": 800 if tier == "quick" else 20000, "shrink": False, "shards": 48 if tier == "quick" else 128}
 
 
 @st.composite
@@ -46,7 +46,7 @@ def case_strategy(draw):
     mode = draw(st.sampled_from(["flux", "flux", "circulation", "circulation", "circulation"]))
     if mode == "flux":
         # (CylinderSegment: ~1e6 field evaluations per surface at ~0.1 ms each - only in the circulation part)
-        cls = draw(st.sampled_from(["Cuboid", "Cuboid", "Cuboid", "Cylinder", "Cylinder", "Sphere", "Tetrahedron", "TriangularMesh", "Dipole", "CylinderSegment"]))
+        cls = draw(st.sampled_from(["Cuboid", "Cuboid", "Cuboid", "Cylinder", "Cylinder", "Sphere", "Tetrahedron", "TriangularMesh", "Dipole", "CylinderSegment", "CylinderSegment"]))
     else:
         cls = draw(st.sampled_from(MAGNETS + ["Cuboid", "Cuboid", "Cylinder", "Circle", "Circle", "Polyline", "Polyline", "Dipole"]))
     spec = draw(gen.source_spec(classes=[cls], max_path=1, L=1.0, pos_extent=1.0))
@@ -68,6 +68,14 @@ def case_strategy(draw):
         size = L * geom.logu(u[4], -0.8, -0.1)
     elif place == "inside" and body.kind == "magnet":
         p = geom.observer_in_region(body, "inside", u, clear=3e-2)
+        if cls == "CylinderSegment" and u[5] < 0.6:
+            # centre the surface on one of the half planes where the routine's azimuth bookkeeping switches
+            # (phi = 180 deg: arctan2 branch cut; phi = 0: sign change of phi), when that plane runs through the body
+            for ang in ((np.pi, 0.0) if u[6] < 0.5 else (0.0, np.pi)):
+                if body.full or bool(body.ang_in(ang, strict=True, tol=0.15)):
+                    rr = body.r1 + (body.r2 - body.r1) * (0.25 + 0.5 * u[1])
+                    p = np.array([rr * np.cos(ang), rr * np.sin(ang), body.h * (u[2] - 0.5) * 0.5])
+                    break
         c = p if p is not None else np.zeros(3)
         dd = float(body.dist(np.asarray(c)[None])[0])
         size = max(0.02 * L, 0.9 * dd) * (0.3 + 0.7 * u[4])
